@@ -39,6 +39,9 @@ let run (st : stream) (b : Buffer.t) : unit =
       | _ -> ()
     done;
     let blocks = List.rev !blocks in
+    (* the executable hypotheses of the end-to-end theorem (EndToEndStmts.v / Hyps.v) on this run *)
+    pr "HYP valid=%b unsigned=%b perm=%b tours=%b\n" (valid_instance_b inst) (inst_unsigned_b inst)
+      (List.length perm = int_of_nat inst.i_nlocs || inst.i_depots <> None) (tours_ok_b nw tours);
     (match from_tours nw tours with
      | Ok s0 ->
        Opsmodel.dump_schedule nw s0 "mcf" b;
